@@ -221,6 +221,17 @@ carquet_status_t carquet_statistics_add_values(
         const void* val = data + (i * value_size);
         int cmp_min = 0, cmp_max = 0;
 
+        /* NaN is unordered: it never becomes min or max (Parquet convention) */
+        if (builder->type == CARQUET_PHYSICAL_FLOAT) {
+            float f;
+            memcpy(&f, val, sizeof(f));
+            if (isnan(f)) continue;
+        } else if (builder->type == CARQUET_PHYSICAL_DOUBLE) {
+            double d;
+            memcpy(&d, val, sizeof(d));
+            if (isnan(d)) continue;
+        }
+
         if (builder->has_min) {
             switch (builder->type) {
                 case CARQUET_PHYSICAL_BOOLEAN:
